@@ -63,6 +63,37 @@ def run_one(item):
         shutil.rmtree(tmp, ignore_errors=True)
 
 
+def run_for_property(prop: str):
+    """must-fire variants of `prop` + every twin, judged on `prop`'s check only."""
+    items = []
+    for kind, d, props, _ in collect([]):
+        if kind == "fire" and prop in props:
+            items.append((kind, d, [prop], []))
+        elif kind == "silent":
+            items.append((kind, d, [prop], []))
+    log, failed, nf, ns = [], 0, 0, 0
+    with ThreadPoolExecutor(max(2, (os.cpu_count() or 4) - 2)) as ex:
+        for (kind, d, props, _), res in ex.map(run_one, items):
+            name = str(d.relative_to(VERIF))
+            if "apply" in res:
+                failed += 1
+                log.append(f"BROKEN {name}: patch does not apply")
+                continue
+            rc, first = res[prop]
+            if kind == "fire":
+                nf += 1
+                ok = rc == 1
+                log.append(f"[{'ok' if ok else 'MISS'}] must-fire {name}: rc={rc} {first[:150]}")
+            else:
+                ns += 1
+                ok = rc == 0
+                if not ok:
+                    log.append(f"[NOISY] must-be-silent {name}: rc={rc} {first[:150]}")
+            failed += 0 if ok else 1
+    log.append(f"{nf} must-fire variants fired, {ns} behaviour-preserving twins silent" if not failed else f"{failed} expectation(s) not met")
+    return {"must_fire": nf, "must_be_silent": ns, "failed": failed, "log": log}
+
+
 def main():
     only = [a for a in sys.argv[1:] if not a.startswith("--")]
     items = collect(only)
